@@ -62,6 +62,7 @@ def main(argv=None):
     ap.add_argument("--jobs", type=int, default=int(os.environ.get("VF_JOBS", "0")))
     ap.add_argument("--shard", type=int, default=None, help="debug: run only this shard index")
     ap.add_argument("--no-evidence", action="store_true")
+    ap.add_argument("--timing", action="store_true", help="print the slowest shards")
     a = ap.parse_args(argv)
     tier = a.tier or os.environ.get("VERIF_TIER") or "quick"
     if tier not in ("quick", "thorough"):
@@ -121,10 +122,12 @@ def main(argv=None):
     work = [(modname, shards[i], tier, i) for i in order]
     results = {}
     harness_errors = []
+    timings = {}
     if jobs == 1:
         for w in work:
             idx, rec, err, dt = _run_one(w)
             results[idx] = rec
+            timings[idx] = dt
             if err:
                 harness_errors.append((idx, err))
     else:
@@ -132,8 +135,13 @@ def main(argv=None):
         with ctx.Pool(jobs, maxtasksperchild=getattr(mod, "MAXTASKS", None)) as pool:
             for idx, rec, err, dt in pool.imap_unordered(_run_one, work, chunksize=1):
                 results[idx] = rec
+                timings[idx] = dt
                 if err:
                     harness_errors.append((idx, err))
+    if a.timing:
+        for idx, dt in sorted(timings.items(), key=lambda t: -t[1])[:12]:
+            print("  shard %d %r: %.1fs" % (idx, shards[idx], dt))
+        print("  total shard seconds: %.1f" % sum(timings.values()))
     if harness_errors:
         for idx, err in harness_errors[:3]:
             sys.stderr.write("HARNESS ERROR in shard %r of %s:\n%s\n" % (shards[idx], pid, err))
